@@ -5,7 +5,7 @@
 From Coq Require Import List Arith Bool.
 Import ListNotations.
 From C17 Require Import Sem Progs Static Annot FutRaw.
-From C17 Require Exec ExecLive Ss FutCopy0 Per Owner Sd WitnessR8 Conserve Pool ConserveAll.
+From C17 Require Exec ExecLive Ss FutCopy0 Per Owner Sd WitnessR8 Conserve Pool ConserveAll PoolD PoolFin.
 From Coq Require Import Permutation.
 
 (* Data-race freedom of the model: whenever a thread is about to execute an instruction that reads
@@ -291,8 +291,8 @@ Print Assumptions c17_conservation_step.
 (* ---- ThreadPool (scenario init_pool n: Init() with two workers, n x Execute, JoinAll()), every schedule, any n:
    the closures queued so far are exactly (as a multiset) those run, those in a worker's hand and those still queued;
    no closure id is queued twice and no closure is run twice; closures are run by the worker threads only, never
-   by the thread that called Execute.  PARTIAL: it is NOT proved here that the queue is empty and every closure has
-   run when JoinAll() returns, nor the pool's wake-up invariant; the model has exactly two workers. *)
+   by the thread that called Execute.  (The drained clause is c17_pool_drained below; the pool's wake-up invariant
+   is not proved; the model has exactly two workers.) *)
 Theorem c17_pool_exec_once_partial : forall n s, reach P (init_pool n) s ->
   Permutation (subm s) (map fst (ran s) ++ Conserve.curs s ++ que s PQ) /\
   NoDup (subm s) /\ NoDup (map fst (ran s)) /\
@@ -300,6 +300,34 @@ Theorem c17_pool_exec_once_partial : forall n s, reach P (init_pool n) s ->
   (forall c t, In (c, t) (ran s) -> t = 1 \/ t = 2).
 Proof. exact Pool.pool_exec_once. Qed.
 Print Assumptions c17_pool_exec_once_partial.
+
+(* ---- ThreadPool, the drained clause, every schedule, any n.  Once both pthread_join calls of JoinAll() have returned
+   (owner pc >= 41) -- in particular once the owner thread has finished -- both workers have finished, the queue is
+   empty, the shutdown flag is set, no closure is in a worker's hand, and the closures run are exactly (as a multiset,
+   and without repetition) the closures handed to Execute: every closure has run exactly once. *)
+Theorem c17_pool_joined : forall n s, reach P (init_pool n) s -> (41 <=? pc (thr s 0)) = true ->
+  stat (thr s 1) = Done /\ stat (thr s 2) = Done /\ que s PQ = [] /\ var s PSHUT = 1 /\ Conserve.curs s = [] /\
+  Permutation (subm s) (map fst (ran s)) /\ NoDup (map fst (ran s)).
+Proof. exact PoolFin.pool_joined. Qed.
+Print Assumptions c17_pool_joined.
+
+Theorem c17_pool_drained : forall n s, reach P (init_pool n) s -> stat (thr s 0) = Done ->
+  stat (thr s 1) = Done /\ stat (thr s 2) = Done /\ que s PQ = [] /\ var s PSHUT = 1 /\ Conserve.curs s = [] /\
+  Permutation (subm s) (map fst (ran s)) /\ NoDup (map fst (ran s)).
+Proof. exact PoolFin.pool_drained. Qed.
+Print Assumptions c17_pool_drained.
+
+(* a worker leaves its loop only with the shutdown flag set and the queue empty (it never abandons queued work) *)
+Theorem c17_pool_worker_exit : forall n s w, reach P (init_pool n) s -> w = 1 \/ w = 2 -> stat (thr s w) = Done ->
+  que s PQ = [] /\ var s PSHUT = 1.
+Proof. exact PoolFin.pool_worker_exit. Qed.
+Print Assumptions c17_pool_worker_exit.
+
+(* the invariant behind them: flags owned by the thread that calls Init/JoinAll, per-worker "past the empty-queue test
+   => queue empty (and, past the shutdown test, shutdown set)" *)
+Theorem c17_pool_invariant : forall n s, reach P (init_pool n) s -> PoolD.XD s.
+Proof. exact PoolFin.pool_xd. Qed.
+Print Assumptions c17_pool_invariant.
 
 (* ---- ExecutorThread where callbacks call Execute again from inside the callback (scenario init_execre), every
    schedule, any number of producers / callbacks / re-submissions: callbacks are conserved (none duplicated, none
@@ -315,3 +343,7 @@ Proof.
   exists s. split; [exact (run_labels_reach P (init_pool 2) _ (init_pool 2) s (reach_refl P (init_pool 2)) E)|].
   vm_compute in E. inversion E; subst. split; reflexivity.
 Qed.
+
+(* the drained state is reachable: the hypothesis of c17_pool_drained is not vacuous *)
+Example ex_pool_drained : exists s, reach P (init_pool 2) s /\ stat (thr s 0) = Done /\ length (ran s) = 2.
+Proof. exact PoolFin.pool_drained_reachable. Qed.
